@@ -79,7 +79,7 @@ Next == \/ \E k \in Keys, v \in Vals : Set(k, v)
         \/ \E k \in Keys : Delete(k)
         \/ \E P \in SUBSET Keys : Filter(P)
         \/ \E P \in SUBSET Keys, v \in Vals : MapOp(P, v)
-        \/ \E P \in SUBSET Keys, v \in Vals, k \in Keys : MapFail(P, v, k)
+        \/ \E v \in Vals, k \in Keys : MapFail(Keys, v, k)      \* (every key mapped up to the failing one; SimNext draws subsets)
 
 Spec == Init /\ [][Next]_vars
 
